@@ -404,3 +404,29 @@ Definition reaped_spec (c : cfg) (st : state) (r : result) : Prop :=
                      exists t, g_tmo st = Some t /\ timeout c <= t /\ t <= clock st
   | RErr _ => True
   end.
+
+(* ------------------------------------------------------------------ host layer: caps and builder *)
+(* How the configuration of the protocol is obtained from the embedder's ProcessCaps and from the
+   script's builder (ProcessCommand::validate + the arguments run_host_process passes on).  Which
+   field feeds what is read from the source (GenCapture: reader_cap_field, poll_field,
+   timeout_fallback_field, timeout_upper_field). *)
+Definition hostcaps := cap_field -> Z.
+Definition hc_of_list (l : list Z) : hostcaps := fun f => nth (cap_field_index f) l 0.
+
+Definition effective_timeout (hc : hostcaps) (t : option Z) : option Z :=
+  let v := match t with Some x => x | None => hc timeout_fallback_field end in
+  if timeout_zero_rejected && (v =? 0) then None
+  else if (if timeout_upper_strict then hc timeout_upper_field <? v else hc timeout_upper_field <=? v)
+  then None
+  else Some v.
+
+Record builder := { b_pol1 : policy; b_pol2 : policy; b_timeout : option Z }.
+
+(* None: validate refuses the command (SpecInvalid) and the backend is never invoked *)
+Definition mk_cfg (hc : hostcaps) (b : builder) (pc : Z) (o1 o2 : bytes) (code : option Z) : option cfg :=
+  match effective_timeout hc (b_timeout b) with
+  | None => None
+  | Some t =>
+      Some {| pol1 := b_pol1 b; pol2 := b_pol2 b; cap := hc (reader_cap_field S1); timeout := t;
+              poll := hc poll_field; pcap := pc; out1 := o1; out2 := o2; ecode := code |}
+  end.
